@@ -42,6 +42,8 @@ pub fn meta(tier: Tier) -> CheckMeta {
             budget_s: tier.pick(240, 2400),
             env: vec![],
             program: None,
+            prepare: None,
+            sanitizer: None,
         }],
         must_be_nonzero: vec![
             ("unequal_pairs", "no unequal pair generated"),
@@ -372,7 +374,7 @@ pub fn worker(ctx: &WorkerCtx) -> Report {
             cross_process(ctx, &mut rep);
         }
     }
-    let iters = if ctx.part == "miri" { 2 } else { ctx.tier.pick(300, 20_000) };
+    let iters = if ctx.part == "miri" { 2 } else { ctx.pick(2000, 40_000) };
     ctx.announce("hash universe");
     let mut v = HV { ctx, rep: &mut rep, idx: 0, iters, rng: Rng::new(ctx.seed).derive(13) };
     gen_types::visit_hash_types(&mut v);
